@@ -2,7 +2,7 @@ SPECIFICATION TraceSpec
 CONSTANTS QCap = 10 MaxPend = 100000 MaxOps = 1000000
           NoInboundFilter = FALSE NoNullCheck = FALSE AnyoneOpens = FALSE RepIds = {}
           TrackHistory = TRUE FlowCache = "none" HostIps = {} HostPorts = {} SrcSet = {} DkSet = {}
-          StaleVerdict = "none" HopFollowsPeer = FALSE FlagChoices = {} SignedSrcs = {}
+          StaleVerdict = "none" HopFollowsPeer = FALSE VerdictMemo = "none" FlagChoices = {} SignedSrcs = {}
 INVARIANT TraceAccepted
 INVARIANT TypeOK
 INVARIANT EmitOnlyAllowed
@@ -10,3 +10,4 @@ INVARIANT NeverToNull
 INVARIANT OpenedOnlyByPrevHop
 INVARIANT EmitOnlyWhenOpen
 INVARIANT QueueClean
+INVARIANT VerdictByOwnShape
